@@ -35,6 +35,7 @@ import (
 	"sort"
 	"strings"
 	"sync"
+	"sync/atomic"
 	"time"
 
 	"github.com/glowlabs-org/gca-backend/client"
@@ -77,7 +78,7 @@ func main() {
 		},
 		Post: func(c *ev.Check, outs []*run.Outcome) {
 			for _, k := range []string{"agree.raw", "agree.client", "agree.bits_set", "agree.banned_slots", "agree.servers_in_reply", "agree.migration_in_reply",
-				"refusal.raw", "refusal.client", "agree.burst", "agree.client_relayed", "tamper.bitflip", "tamper.truncate", "tamper.extend_adjusted", "tamper.resign_otherkey",
+				"refusal.raw", "refusal.client", "agree.burst", "agree.client_relayed", "rotation.injected_at.sync.ready", "rotation.injected_at.sync.afterCopy", "rotation.under_load", "rotation.reply_is_state_before", "rotation.reply_is_state_after", "tamper.bitflip", "tamper.truncate", "tamper.extend_adjusted", "tamper.resign_otherkey",
 				"accepted.time_within", "rejected.time_outside", "rejected.devkey", "rejected.entry_sig", "rejected.mig_outer", "rejected.mig_inner",
 				"fullround.rejected_unchanged", "fullround.accepted", "states.offset_0", "states.offset_2016", "states.offset_4032"} {
 				c.Require(k, 1)
@@ -194,8 +195,15 @@ func newMITM(target string) (*mitm, error) {
 				m.upErr = err
 				m.lastIn = genuine
 				out := genuine
-				if mut != nil && err == nil {
-					out = mut(append([]byte(nil), genuine...))
+				if err == nil {
+					// a stalled server answers with nothing or a fragment: such
+					// an upstream reply is no basis for a rewrite
+					if _, refused, perr := refenc.ParseSyncReply(genuine); perr != nil {
+						err = fmt.Errorf("incomplete upstream reply (%d bytes): %v", len(genuine), perr)
+						m.upErr = err
+					} else if mut != nil && !refused {
+						out = mut(append([]byte(nil), genuine...))
+					}
 				}
 				m.lastOu = out
 				m.mu.Unlock()
@@ -774,6 +782,166 @@ func (s *st) alternate(stage string, rounds int) {
 				s.r.Violation(p.key, p.msg, p.rp)
 			}
 			return
+		}
+	}
+}
+
+// window is what a reply says about the report window, and what a snapshot
+// says: offset plus the 4032 presence bits of one device.
+type window struct {
+	off  uint32
+	bits [504]byte
+}
+
+func windowOf(snap *server.VerifSnap, id uint32) (w window, ok bool) {
+	reports := snap.Reports[id]
+	if reports == nil {
+		return w, false
+	}
+	w.off = snap.Offset
+	for i := 0; i < 4032; i++ {
+		if reports[i].PowerOutput != 0 {
+			w.bits[i/8] |= 1 << (uint(i) % 8)
+		}
+	}
+	return w, true
+}
+
+// judgeAcrossRotation: a reply produced while the window rotated must be the
+// server's data of one instant: (offset, every bit) equals the state before the
+// rotation or the state after it, not a mixture.
+func (s *st) judgeAcrossRotation(dev *drv.Dev, raw []byte, s0, s1 *server.VerifSnap, how string) {
+	if !authentic(raw, s.Key.Pub) {
+		s.r.Count("rotation.reply_unusable", 1)
+		return
+	}
+	rep, _, _ := refenc.ParseSyncReply(raw)
+	w0, ok0 := windowOf(s0, dev.ID)
+	w1, ok1 := windowOf(s1, dev.ID)
+	if !ok0 || !ok1 {
+		s.r.Inconc("snapshot has no report array for an authorized device")
+		return
+	}
+	s.r.Eval(1)
+	s.r.Nontrivial(fmt.Sprintf("%s/rotation/%s/%d/%d", s.label, how, dev.ID, s0.Offset))
+	got := window{rep.Offset, rep.Bitfield}
+	switch {
+	case got == w0:
+		s.r.Count("rotation.reply_is_state_before", 1)
+	case got == w1:
+		s.r.Count("rotation.reply_is_state_after", 1)
+	default:
+		what := "matches neither the window before nor the window after the rotation"
+		if got.off == w1.off && got.bits == w0.bits {
+			what = "pairs the bitfield of the window before the rotation with the offset after it"
+		} else if got.off == w0.off && got.bits == w1.bits {
+			what = "pairs the offset before the rotation with the bitfield after it"
+		}
+		s.r.Violationf("reply-mixes-two-windows", s.replay(map[string]interface{}{"how": how, "dev": dev.ID, "reply": hx(raw), "offset_before": w0.off, "offset_after": w1.off}),
+			"a reply produced while the report window rotated (%s) %s: offset %d, window offsets %d -> %d", how, what, got.off, w0.off, w1.off)
+	}
+	if rep.DevKey != dev.Key.Pub {
+		s.r.Violationf("reply-devkey-mismatch", s.replay(map[string]interface{}{"how": how, "dev": dev.ID, "reply": hx(raw)}), "reply for device %d carries another key", dev.ID)
+	}
+}
+
+// rotationsDuringRequests: (a) the rotation is let through from inside the
+// request handler at its two instrumented points, (b) the rotation runs while a
+// crowd of requests is in flight.
+func (s *st) rotationsDuringRequests() {
+	sync1 := func(dev *drv.Dev) []byte {
+		var req [4]byte
+		binary.LittleEndian.PutUint32(req[:], dev.ID)
+		raw, err := s.SyncRaw(req[:])
+		if err != nil {
+			return nil
+		}
+		return raw
+	}
+	prepare := func() (*server.VerifSnap, bool) {
+		off := s.S.VerifSnapshot(false).Offset
+		s.addReports(s.A, off, true)
+		s.addReports(s.B, off, true)
+		drv.SetClock(off + 3201)
+		s0 := s.S.VerifSnapshot(true)
+		if w, ok := windowOf(s0, s.A.ID); !ok || w.bits == [504]byte{} {
+			s.r.Count("rotation.cell_without_reports", 1)
+			return s0, false
+		}
+		return s0, true
+	}
+	for _, point := range []string{"sync.ready", "sync.afterCopy"} {
+		s0, ok := prepare()
+		if !ok {
+			continue
+		}
+		var fired, rotated atomic.Int32
+		server.VerifSetHook(point, func(*server.GCAServer) {
+			if fired.Add(1) == 1 {
+				rotated.Store(int32(drv.StepRotation()))
+			}
+		})
+		run.Op("sync with rotation injected at %s", point)
+		raw := sync1(s.A)
+		server.VerifSetHook(point, func(*server.GCAServer) {})
+		s1 := s.S.VerifSnapshot(true)
+		switch {
+		case fired.Load() == 0:
+			s.r.Count("rotation.hook_not_reached."+point, 1)
+			s.r.Inconc("instrumented point " + point + " was not reached by a sync request: the rotation could not be injected there")
+		case rotated.Load() != 1 || s1.Offset != s0.Offset+2016:
+			s.r.Inconc(fmt.Sprintf("rotation injected at %s did not happen (%d)", point, rotated.Load()))
+		default:
+			s.r.Count("rotation.injected_at."+point, 1)
+			s.judgeAcrossRotation(s.A, raw, s0, s1, "injected at "+point)
+		}
+		if fired.Load() == 0 { // keep the window moving for the next cell
+			drv.StepRotation()
+		}
+	}
+	for ep := 0; ep < 6; ep++ {
+		s0, ok := prepare()
+		if !ok {
+			continue
+		}
+		type got struct {
+			dev *drv.Dev
+			raw []byte
+		}
+		res := make(chan got, 1024)
+		var wg sync.WaitGroup
+		var started atomic.Int32
+		for g := 0; g < 32; g++ {
+			wg.Add(1)
+			go func(g int) {
+				defer wg.Done()
+				for i := 0; i < 16; i++ {
+					dev := s.A
+					if (g+i)%3 == 0 {
+						dev = s.B
+					}
+					started.Add(1)
+					res <- got{dev, sync1(dev)}
+				}
+			}(g)
+		}
+		for started.Load() < 48+int32(s.rng.Intn(64)) { // the crowd is under way
+			time.Sleep(50 * time.Microsecond)
+		}
+		run.Op("rotation while a crowd of syncs is in flight (episode %d)", ep)
+		n := drv.StepRotation()
+		wg.Wait()
+		close(res)
+		s1 := s.S.VerifSnapshot(true)
+		if n != 1 || s1.Offset != s0.Offset+2016 {
+			s.r.Inconc(fmt.Sprintf("rotation under load did not happen (%d)", n))
+			return
+		}
+		s.r.Count("rotation.under_load", 1)
+		for x := range res {
+			if x.raw != nil {
+				s.judgeAcrossRotation(x.dev, x.raw, s0, s1, "crowd of requests")
+			}
 		}
 	}
 }
@@ -1809,5 +1977,8 @@ func child(b run.Batch, r *ev.Result) {
 	r.Sample(map[string]interface{}{"state": s.label, "reply_len": len(genuine), "cases": len(vs), "genuine": hx(genuine[:80])})
 	if slice == 0 {
 		s.fullRounds(b.Dir, sample, target)
+		if r.NumViolations() == 0 {
+			s.rotationsDuringRequests()
+		}
 	}
 }
